@@ -508,7 +508,8 @@ def layout_metadata_and_stream(facts, orc):
         t.row("128" in s0 and "is_last" in s0 and "typetag" in s0, mb.id, "last-flag",
               "first header byte is %s; expected typetag + (is_last ? 0x80 : 0)" % s0, {"byte": s0})
         ln = E.strip_casts(seq2[1][2])
-        t.row(ln[0] == "bin" and ln[1] == "Div" and E.evalc(ln[3]) == 8 and "count_bits(arg1.data)" in E.canon(ln[2]),
+        t.row(ln[0] == "bin" and ((ln[1] == "Div" and E.evalc(ln[3]) == 8) or (ln[1] == "Shr" and E.evalc(ln[3]) == 3))
+              and "count_bits(arg1.data)" in E.canon(ln[2]),
               mb.id, "length-field", "24-bit length field is %s; expected data.count_bits() / 8" % E.show(seq2[1][2]))
     # is_last of the STREAMINFO block is maintained by add_metadata_block / constructors: who writes is_last
     writers = set()
